@@ -415,7 +415,7 @@ func c20Actions(c *c20m) map[string]func(*rapid.T) {
 				c.dirty = true
 			}
 			for _, op := range g.hist[n:] {
-				if c.runs >= 1 && (op.K == "delete" || op.K == "rename" || op.K == "gc") {
+				if c.runs >= 1 && (op.K == "delete" || op.K == "rename" || op.K == "gc" || op.K == "gcdel") {
 					c.deletedAfterBackup = true // these remove keys from the store
 				}
 			}
